@@ -48,6 +48,8 @@ ASSUMPTIONS = [
     "errors: the reference says 'refused' when any conflict or misuse exists; the implementation must then raise "
     "ValueError or MergeForbiddenError (other exception classes are reported under their own signature)",
     "the local side of a virtual pair takes from the session what a VirtualLocal can carry (asnum, shared options)",
+    "handlers assign shared constant objects (one set object per value and process), as a rulebook author writing a "
+    "module-level default would; annet altering such an object shows as a wrong result of a later session",
     "part B: the expected merger of every field is restated in mc.ref.meshref (DECLARED); a field whose declared merger "
     "differs from that table is reported; values are compared with ==; argument mutation is counted, not judged",
 ]
@@ -206,9 +208,20 @@ def build_storage(topo):
 
 # ---------------------------------------------------------------------------------------------------
 # real registries from rule descriptors
+_CONSTANTS = {}
+
+
 def _conv(v):
+    """handler tables hold frozensets; a handler assigns a set.  Like a fabric-wide default written once at module level,
+    the set object for one value is created once per process and assigned again on every call - annet must not write
+    into what a handler assigned (its merges build new values)."""
     if isinstance(v, frozenset):
-        return set(v)
+        s = _CONSTANTS.get(v)
+        if s is None or s != v:
+            # (a constant that annet has altered is replaced, so that one leak is reported once, where it happens,
+            #  and does not poison every later case of the block)
+            s = _CONSTANTS[v] = set(v)
+        return s
     return v
 
 
